@@ -383,7 +383,7 @@ func HistMain(root string, names []string) {
 }
 
 func c02histories(c *core.Ctx, inputs map[string]*Scn) {
-	alphabet := []string{"rich", "override-debug", "extends", "include", "version", "bad-schema", "bad-consist", "missing-file"}
+	alphabet := []string{"rich", "override-debug", "extends", "include", "version", "bad-schema", "depends-refine", "missing-file"}
 	targets := alphabet
 	depth := 2
 	if !c.Quick() {
@@ -407,9 +407,14 @@ func c02histories(c *core.Ctx, inputs map[string]*Scn) {
 	}
 	fresh := map[string]string{}
 	var seqs [][]string
+	// every single earlier load over ALL inputs, then longer histories over the 8-input alphabet
+	all := sortedKeys(inputs)
+	for _, a := range all {
+		seqs = append(seqs, []string{a})
+	}
 	var gen func(prefix []string, d int)
 	gen = func(prefix []string, d int) {
-		if len(prefix) > 0 {
+		if len(prefix) > 1 {
 			seqs = append(seqs, append([]string{}, prefix...))
 		}
 		if d == 0 {
@@ -420,6 +425,7 @@ func c02histories(c *core.Ctx, inputs map[string]*Scn) {
 		}
 	}
 	gen(nil, depth)
+	targets = all
 	for _, t := range targets {
 		for _, h := range seqs {
 			if c.Expired() {
